@@ -498,6 +498,13 @@ func ExecHistory(r *eng.Run, wr *WRun, seed uint32, check func(step int)) {
 			data := patBytes(seed, wr.Offered, n)
 			keep := append([]byte(nil), data...)
 			var k int
+			// Someone else may be looking at the same slice while it is on
+			// its way out (a broadcast): the observer stands at the destination.
+			p.OnWrite = func() {
+				if wr.Mutated == "" && !bytes.Equal(data, keep) {
+					wr.Mutated = fmt.Sprintf("step %d %s: the caller's slice was not intact while the destination was being written to%s", i, op, firstDiff(data, keep))
+				}
+			}
 			if op.Kind == WOpThrough {
 				k, ob.Err = w.WriteThrough(data)
 			} else if op.Via != 0 {
@@ -505,6 +512,7 @@ func ExecHistory(r *eng.Run, wr *WRun, seed uint32, check func(step int)) {
 			} else {
 				k, ob.Err = w.Write(data)
 			}
+			p.OnWrite = nil
 			ob.N = int64(k)
 			if k < 0 || k > n {
 				r.Failf("accepted_count_out_of_range", "%s returned n=%d", op, k)
